@@ -31,26 +31,27 @@ type Cfg struct {
 	Mode string `json:"mode"` // serve | raw | envdump | impostor
 
 	// serve
-	Versioned    map[string]string `json:"versioned"`  // version -> "netrpc" | "grpc"
-	Legacy       *LegacyCfg        `json:"legacy"`     // ProtocolVersion + Plugins
-	GRPCServer   *bool             `json:"grpcServer"` // default: true iff any grpc set
-	Names        []string          `json:"names"`
-	TLSCert      string            `json:"tlsCert"` // PEM files => TLSProvider
-	TLSKey       string            `json:"tlsKey"`
-	TLSClientCA  string            `json:"tlsClientCA"` // require client certs signed by this
-	TLSRootCA    string            `json:"tlsRootCA"`   // trust this certificate when the plugin dials the host (brokered connections); sets ServerName localhost
-	CookieKey    *string           `json:"cookieKey"`
-	CookieValue  *string           `json:"cookieValue"`
-	LogLevel     string            `json:"logLevel"`
-	Marker       string            `json:"marker"`      // written after Serve returned and cleanup ran
-	ExitDelayMs  int               `json:"exitDelayMs"` // "cleanup" duration after Serve returns
-	NeverExit    bool              `json:"neverExit"`
-	Ctl          string            `json:"ctl"`
-	PreWrite     *WritePlan        `json:"preWrite"` // issued the moment serving starts
-	StartedFile  string            `json:"startedFile"`
-	PreTestServe bool              `json:"preTestServe"` // serve once in test mode (and stop) before serving for real
-	UnsetEnv     []string          `json:"unsetEnv"`     // emulate an older plugin that does not know these variables
-	TmpDir       string            `json:"tmpDir"`       // private sandbox: becomes this process' TMPDIR (the host's own TMPDIR would otherwise win in the inherited environment)
+	Versioned      map[string]string `json:"versioned"`  // version -> "netrpc" | "grpc"
+	Legacy         *LegacyCfg        `json:"legacy"`     // ProtocolVersion + Plugins
+	GRPCServer     *bool             `json:"grpcServer"` // default: true iff any grpc set
+	Names          []string          `json:"names"`
+	TLSCert        string            `json:"tlsCert"` // PEM files => TLSProvider
+	TLSKey         string            `json:"tlsKey"`
+	TLSClientCA    string            `json:"tlsClientCA"` // require client certs signed by this
+	TLSRootCA      string            `json:"tlsRootCA"`   // trust this certificate when the plugin dials the host (brokered connections); sets ServerName localhost
+	CookieKey      *string           `json:"cookieKey"`
+	CookieValue    *string           `json:"cookieValue"`
+	LogLevel       string            `json:"logLevel"`
+	Marker         string            `json:"marker"`      // written after Serve returned and cleanup ran
+	ExitDelayMs    int               `json:"exitDelayMs"` // "cleanup" duration after Serve returns
+	NeverExit      bool              `json:"neverExit"`
+	Ctl            string            `json:"ctl"`
+	PreWrite       *WritePlan        `json:"preWrite"` // issued the moment serving starts
+	StartedFile    string            `json:"startedFile"`
+	ChatterAfterMs int               `json:"chatterAfterMs"` // print lines to os.Stdout from a goroutine, starting this long after the handshake line
+	PreTestServe   bool              `json:"preTestServe"`   // serve once in test mode (and stop) before serving for real
+	UnsetEnv       []string          `json:"unsetEnv"`       // emulate an older plugin that does not know these variables
+	TmpDir         string            `json:"tmpDir"`         // private sandbox: becomes this process' TMPDIR (the host's own TMPDIR would otherwise win in the inherited environment)
 
 	// raw
 	LineHex           string `json:"lineHex"`
@@ -128,8 +129,21 @@ func main() {
 		impostor()
 	}
 
-	var once sync.Once
+	var once, chatterOnce sync.Once
 	vp.InstallEnvHook(func(name string, id uint32) {
+		if name == "serve.lineWritten" && cfg.ChatterAfterMs > 0 {
+			// plugin code that prints to os.Stdout on its own, starting some time after the handshake line
+			// went out, whether or not a host has connected by then
+			chatterOnce.Do(func() {
+				go func() {
+					time.Sleep(time.Duration(cfg.ChatterAfterMs) * time.Millisecond)
+					for i := 0; i < 200; i++ {
+						fmt.Fprintf(os.Stdout, "plugin-chatter %d\n", i)
+						time.Sleep(10 * time.Millisecond)
+					}
+				}()
+			})
+		}
 		if name == "serve.serving" && cfg.PreWrite != nil {
 			once.Do(func() { go doWrites(cfg.PreWrite) })
 		}
